@@ -84,6 +84,8 @@ Strict(m) ==
   \* the value length (value-carrying kinds): empty, one less, one more
   /\ L(m.k).v =>
        /\ Rejected([F EXCEPT ![6] = 0, ![7] = 0])
+       \* the value cut out altogether (valueLen = 0, prefix adjusted): a value is never empty
+       /\ Rejected(FixPrefix(SubSeq(F, 1, 5) \o <<0, 0, 0, 0>> \o SubSeq(F, 6 + Len(ValuePart(m)), n)))
        /\ RejOrDifferent(SetByte(F, 6, (F[6] + 1) % 256), m)
        /\ RejOrDifferent(SetByte(F, 6, (F[6] + 255) % 256), m)
   \* any single byte from the kind on: accepted only as a self-consistent message
